@@ -278,6 +278,10 @@ def hand_corpus():
     S("HChunkThenStr", chunked(field("name", "string"), brk()), field("b", "byte"), field("t", "string"))
     S("HPadOnly", field("p", "string", length=3, padded=True))
     S("HEncPadOnly", field("p", "encoded_string", length=2, padded=True), field("z", "char"))
+    S("HSwitchEmptyDefault", field("kind", "char"), switch("kind", "char", case(1, field("x", "short")), case(None, default=True)), field("z", "char"))
+    S("HSwitchEnumEmptyDefault", field("col", "Color"), switch("col", "Color", case("Red", field("r", "char")), case("Blue"), case(None, default=True)))
+    S("HOptLenArrThenOpt", field("a", "char"), length("n", "char", optional=True), array("xs", "short", length="n", optional=True), field("eta", "short", optional=True))
+    S("HByteLen", length("n", "byte"), array("xs", "char", length="n"), length("m", "char", offset=2), field("s", "string", length="m"))
     S("HArrCPair", field("n", "char"), array("ps", "CPair"))
     S("HOptBreakOpt", chunked(field("a", "char"), field("b", "short", optional=True), brk(), field("c", "string", optional=True), brk(), field("d", "char", optional=True)), rt=False)
     S("HByteArr", array("raw", "byte", length=3), array("cs", "char"))
